@@ -31,7 +31,7 @@ pub fn run_check(prop: &str, _args: &[String]) -> i32 {
 
 pub fn find_image(name: &str) -> Option<ImageSet> {
     for g in [images::G9, images::G10, images::G12, images::G12B, images::G12R0, images::G12R1, images::G12R3, images::G12V2, images::G16] {
-        for k in ["libfmt", "empty", "data", "data-last-table", "zero", "compressed", "compressed-boundary", "compressed-straddle", "compressed-ragged", "backing", "backing-short", "backing-long", "chain2", "shortl1"] {
+        for k in ["libfmt", "empty", "data", "data-last-table", "zero", "zero-prealloc", "compressed", "compressed-boundary", "compressed-straddle", "compressed-ragged", "backing", "backing-short", "backing-long", "chain2", "shortl1"] {
             if !(name.starts_with(g.name) || name.starts_with("libfmt")) {
                 continue;
             }
@@ -310,7 +310,7 @@ fn seq_family(prop: &str) -> i32 {
             SeqPlan { geo: images::G10, images: vec!["data"], cfgs: vec!["small", "ample"], depth: 3, secs: 10 },
             SeqPlan { geo: images::G10, images: vec!["libfmt"], cfgs: vec!["ample"], depth: 3, secs: 5 },
             SeqPlan { geo: images::G12, images: vec!["libfmt"], cfgs: vec!["small"], depth: 2, secs: 5 },
-            SeqPlan { geo: images::G12B, images: vec!["compressed", "compressed-straddle", "compressed-ragged", "backing", "zero"], cfgs: vec!["small"], depth: 2, secs: 8 },
+            SeqPlan { geo: images::G12B, images: vec!["compressed", "compressed-straddle", "compressed-ragged", "backing", "zero", "zero-prealloc"], cfgs: vec!["small"], depth: 2, secs: 8 },
         ]
     } else {
         vec![
@@ -318,7 +318,7 @@ fn seq_family(prop: &str) -> i32 {
             SeqPlan { geo: images::G10, images: vec!["libfmt", "data", "empty"], cfgs: vec!["small", "ample"], depth: 6, secs: 300 },
             SeqPlan { geo: images::G12, images: vec!["libfmt", "data"], cfgs: vec!["small", "default"], depth: 4, secs: 120 },
             SeqPlan { geo: images::G12B, images: vec!["libfmt", "compressed", "compressed-straddle", "compressed-boundary", "compressed-ragged", "backing", "zero"], cfgs: vec!["small"], depth: 3, secs: 120 },
-            SeqPlan { geo: images::G10, images: vec!["zero", "compressed", "compressed-straddle", "backing", "backing-short"], cfgs: vec!["small"], depth: 4, secs: 200 },
+            SeqPlan { geo: images::G10, images: vec!["zero", "zero-prealloc", "compressed", "compressed-straddle", "backing", "backing-short"], cfgs: vec!["small"], depth: 4, secs: 200 },
             SeqPlan { geo: images::G16, images: vec!["libfmt"], cfgs: vec!["default"], depth: 3, secs: 60 },
             SeqPlan { geo: images::G12R0, images: vec!["libfmt", "data"], cfgs: vec!["small"], depth: 3, secs: 60 },
             SeqPlan { geo: images::G12R1, images: vec!["libfmt", "data"], cfgs: vec!["small"], depth: 3, secs: 60 },
